@@ -569,4 +569,289 @@ theorem payReward_ok {s : St} (u base boosted : Nat)
       simp only
       exact lockVirtual_ok u (base + boosted) hl
 
+/-! ### progress of `exitFarm` -/
+
+theorem setFarmSupplyWeek_ok {s : St} (v : Nat) (hT : s.firstWeekStart ≤ s.epoch) :
+    ∃ s', setFarmSupplyWeek s v = some s' := by
+  obtain ⟨W, hW⟩ := week_of_time hT
+  refine ⟨{ s with b := { s.b with farmSupplyWeek := upd s.b.farmSupplyWeek W v } }, ?_⟩
+  simp only [setFarmSupplyWeek, hW, Option.bind_eq_bind, Option.bind_some, Option.pure_def]
+
+theorem setFarmSupplyWeek_cev {s s' : St} {v : Nat} (h : setFarmSupplyWeek s v = some s') :
+    cev s' = cev s := by obtain ⟨_, _, rfl⟩ := setFarmSupplyWeek_spec h; rfl
+theorem removeFarming_cev {s s' : St} {a p : Nat} (h : removeFarming s a p = some s') : cev s' = cev s := by
+  simp only [removeFarming, Option.bind_eq_bind, Option.bind_eq_some_iff, sub?_eq_some, Option.pure_def,
+    Option.some.injEq] at h
+  obtain ⟨_, _, rfl⟩ := h; rfl
+theorem payReward_cev {s s' : St} {u b bo : Nat} (h : payReward s u b bo = some s') :
+    cev s' = cev s := by obtain ⟨_, _, rfl, _⟩ := payReward_spec h; rfl
+
+theorem takePayments_single {s : St} {u n a : Nat} (ha : a ≠ 0) (hs : (s.attrs n).isSome)
+    (hle : a ≤ s.hold u n) :
+    takePayments s u [(n, a)] = some { s with hold := upd s.hold u (upd (s.hold u) n (s.hold u n - a)) } := by
+  simp [takePayments, req, sub?, ha, hs, hle]
+
+/-- **progress of `exitFarm`.** -/
+theorem exitFarm_ok {s s1 s2 : St} {c1 : Cache} {u n a boosted : Nat} {att : Attr}
+    (hA : Acct s) (hP : PosInv s) (hK : PotInv s) (hI : PoolInv s) (hX : XInv s) (hd : s.dsc ≠ 0)
+    (hact : s.active = true) (ha : a ≠ 0) (hle : a ≤ s.hold u n) (hat : s.attrs n = some att)
+    (hg : generate s (Cache.read s) = some (s1, c1))
+    (hb : claimBoostedYields s1 u = some (s2, boosted))
+    (hc : (clearUserEnergyIfNeeded (decreaseOwner s2 att.owner a) u).isSome) :
+    (exitFarm s u none n a).isSome := by
+  -- the payments
+  have h0 := takePayments_single ha (by rw [hat]; rfl) hle
+  generalize upd s.hold u (upd (s.hold u) n (s.hold u n - a)) = h' at h0
+  obtain ⟨s0, hs0⟩ : ∃ x : St, x = { s with hold := h' } := ⟨_, rfl⟩
+  obtain ⟨s1', hs1'⟩ : ∃ x : St, x = { s1 with hold := h' } := ⟨_, rfl⟩
+  obtain ⟨s2', hs2'⟩ : ∃ x : St, x = { s2 with hold := h' } := ⟨_, rfl⟩
+  rw [← hs0] at h0
+  have h1 : generate s0 (Cache.read s0) = some (s1', c1) := by
+    have : Cache.read s0 = Cache.read s := by rw [hs0]; rfl
+    rw [this, hs0, generate_hold, hg, hs1']; rfl
+  have h2 : claimBoostedYields s1' u = some (s2', boosted) := by
+    rw [hs1', claimBoostedYields_hold, hb, hs2']; rfl
+  have hact0 : s0.active = true := by rw [hs0]; exact hact
+  have hat0 : s0.attrs n = some att := by rw [hs0]; exact hat
+  have hd1 : s1'.dsc = s1.dsc := by rw [hs1']
+  obtain ⟨hamt, hep⟩ := hX.1 n att hat
+  obtain ⟨part, hpart⟩ := intoPart_ok a hamt
+  obtain ⟨p1, p2, p3, _⟩ := intoPart_spec hpart
+  -- reserve
+  have hres := reward_le_reserve hA hP hK hI hd h0 h1 hat h2
+  rw [← p2] at hres
+  -- supply
+  have hsup : part.amt ≤ c1.supply := by
+    rw [p1, (generate_pv hg).2]
+    exact held_le_supply hP ha hle
+  -- the state after the boosted claim, with the owner's total decreased
+  obtain ⟨s3, hs3⟩ : ∃ x : St, x = decreaseOwner s2' att.owner a := ⟨_, rfl⟩
+  have x1 : xv s1 = xv s := generate_xv hg
+  have x2 : xv s2 = xv s := (claimBoostedYields_xv hb).trans x1
+  have x3 : xv s3 = xv s := by
+    rw [hs3, hs2']
+    show xv s2 = xv s
+    exact x2
+  have f1 : s1.firstWeekStart = s.firstWeekStart := by obtain ⟨_, rfl, _⟩ := generate_spec hg; rfl
+  have f2 : s2.firstWeekStart = s.firstWeekStart := by
+    obtain ⟨_, _, rfl⟩ := claimBoostedYields_struct hb; exact f1
+  have f3 : s3.firstWeekStart = s.firstWeekStart := by
+    rw [hs3, hs2']
+    show s2.firstWeekStart = s.firstWeekStart
+    exact f2
+  have e3 : s3.epoch = s.epoch := congrArg XV.epoch x3
+  have hT3 : s3.firstWeekStart ≤ s3.epoch := by rw [f3, e3]; exact hI.time
+  have v1 : av s1 = _ := (generate_av hg).1
+  have hc1 : c1.reserve = s.reserve + minted s := by rw [(generate_av hg).2]; rfl
+  have v3 : av s3 = av s1 := by
+    rw [hs3, hs2']
+    show av s2 = av s1
+    exact claimBoostedYields_av hb
+  have k3 : s3.kind = s.kind := by
+    rw [hs3, hs2']
+    show s2.kind = s.kind
+    exact (claimBoostedYields_kind hb).trans (generate_kind hg)
+  have c3 : cev s3 = cev (decreaseOwner s2 att.owner a) := by rw [hs3, hs2']; rfl
+  obtain ⟨s4, h4⟩ := setFarmSupplyWeek_ok (s := s3) (c1.supply - part.amt) hT3
+  have x4 : xv s4 = xv s := (setFarmSupplyWeek_xv h4).trans x3
+  have e4 : s4.epoch = s.epoch := congrArg XV.epoch x4
+  have e4p : s4.penaltyPct = s.penaltyPct := congrArg XV.penaltyPct x4
+  have hpe : part.epoch ≤ s4.epoch := by
+    rw [p3, e4]; exact hep
+  have hpp : s4.penaltyPct ≤ MAXPCT := by
+    rw [e4p]; exact hX.2.1
+  obtain ⟨pen, hpen, hpl⟩ := exitPenalty_ok (s := s4) part.amt part.epoch hpe hpp
+  -- farming balance
+  have v4 : av s4 = av s1 := (setFarmSupplyWeek_av h4).trans v3
+  have hheld := held_le_supply hP ha hle
+  have hprin := hA.prin
+  have b4 : s4.balFarming = s.balFarming := by
+    have := congrArg AV.balFarming v4
+    have := congrArg AV.balFarming v1
+    simp only [av] at *
+    omega
+  have hbf : part.amt ≤ s4.balFarming := by rw [b4, p1]; omega
+  obtain ⟨s5, hs5⟩ : ∃ x : St, x = Cache.drop s4
+      ⟨c1.reserve - (baseReward s1'.dsc c1.rps a part.rps + boosted), c1.rps, c1.supply - part.amt⟩ := ⟨_, rfl⟩
+  have b5 : s5.balFarming = s4.balFarming := by rw [hs5]; rfl
+  obtain ⟨s6, h6⟩ : ∃ s6, removeFarming s5 part.amt pen = some s6 := by
+    unfold removeFarming
+    have : sub? s5.balFarming part.amt = some (s5.balFarming - part.amt) := by
+      simp [sub?, b5, hbf]
+    simp only [Option.bind_eq_bind, this, Option.bind_some, Option.pure_def]
+    exact ⟨_, rfl⟩
+  -- the reward payment
+  have k4 : s4.kind = s.kind := (setFarmSupplyWeek_kind h4).trans k3
+  have k5 : s5.kind = s.kind := by rw [hs5]; exact k4
+  have k6 : s6.kind = s.kind := (removeFarming_kind h6).trans k5
+  have v6 := (removeFarming_av h6).2
+  have x5 : xv s5 = xv s := by rw [hs5]; exact x4
+  have x6 : xv s6 = xv s := (removeFarming_xv h6).trans x5
+  have r5 : s5.balReward = s4.balReward := by rw [hs5]; rfl
+  have l6 : s6.lockEpochs = s.lockEpochs := congrArg XV.lockEpochs x6
+  obtain ⟨s7, h7⟩ := payReward_ok (s := s6) u (baseReward s1'.dsc c1.rps a part.rps) boosted
+    (by
+      intro hk
+      rw [k6] at hk
+      have hb' := hA.bal hk
+      have q1 := congrArg AV.balReward v6
+      have q2 := congrArg AV.balReward v4
+      have q3 := congrArg AV.balReward v1
+      simp only [av, hk, if_true] at q1 q2 q3
+      omega)
+    (by rw [l6]; exact hX.2.2)
+  -- the energy clearing
+  have c5 : cev s5 = cev s4 := by rw [hs5]; rfl
+  have c7 : cev s7 = cev (decreaseOwner s2 att.owner a) :=
+    (payReward_cev h7).trans ((removeFarming_cev h6).trans (c5.trans ((setFarmSupplyWeek_cev h4).trans c3)))
+  have h8 : (clearUserEnergyIfNeeded s7 u).isSome := by
+    rw [clearUserEnergyIfNeeded_congr u c7]; exact hc
+  obtain ⟨s8, h8⟩ := Option.isSome_iff_exists.mp h8
+  -- assemble
+  unfold exitFarm
+  refine isSome_bind (a := u) rfl ?_
+  refine isSome_bind h0 ?_
+  refine isSome_bind (a := ()) (by simp [req, hact0]) ?_
+  refine isSome_bind (a := att) hat0 ?_
+  refine isSome_bind h1 ?_
+  refine isSome_bind hpart ?_
+  refine isSome_bind h2 ?_
+  refine isSome_bind (a := c1.reserve - (baseReward s1'.dsc c1.rps a part.rps + boosted))
+    (by simp [sub?, hres]) ?_
+  refine isSome_bind (a := c1.supply - part.amt) (by simp [sub?, hsup]) ?_
+  rw [← hs3]
+  refine isSome_bind h4 ?_
+  refine isSome_bind hpen ?_
+  refine isSome_bind (a := part.amt - pen) (by simp [sub?, hpl]) ?_
+  rw [← hs5]
+  refine isSome_bind h6 ?_
+  refine isSome_bind h7 ?_
+  refine isSome_bind h8 ?_
+  rfl
+
+/-! ### progress of `claimRewards` -/
+
+theorem checkAndUpdate_single_ok {s : St} {u n a : Nat} (hs : (s.attrs n).isSome) :
+    ∃ s', checkAndUpdate s u [(n, a)] = some s' := by
+  obtain ⟨att, hat⟩ := Option.isSome_iff_exists.mp hs
+  simp only [checkAndUpdate, Option.bind_eq_bind, hat, Option.bind_some]
+  exact ⟨_, rfl⟩
+
+/-- **progress of `claimRewards`** (one payment, claimed by the holder for itself): it can only fail
+    inside the boosted claim -/
+theorem claimRewards_ok {s s1 s2 : St} {c1 : Cache} {u n a boosted : Nat} {att : Attr}
+    (hA : Acct s) (hP : PosInv s) (hK : PotInv s) (hI : PoolInv s) (hX : XInv s) (hd : s.dsc ≠ 0)
+    (hact : s.active = true) (ha : a ≠ 0) (hle : a ≤ s.hold u n) (hat : s.attrs n = some att)
+    (hg : generate s (Cache.read s) = some (s1, c1))
+    (hb : claimBoostedYields s1 u = some (s2, boosted)) :
+    (claimRewards s u none [(n, a)]).isSome := by
+  have h0 := takePayments_single ha (by rw [hat]; rfl) hle
+  generalize upd s.hold u (upd (s.hold u) n (s.hold u n - a)) = h' at h0
+  obtain ⟨s0, hs0⟩ : ∃ x : St, x = { s with hold := h' } := ⟨_, rfl⟩
+  obtain ⟨s1', hs1'⟩ : ∃ x : St, x = { s1 with hold := h' } := ⟨_, rfl⟩
+  obtain ⟨s2', hs2'⟩ : ∃ x : St, x = { s2 with hold := h' } := ⟨_, rfl⟩
+  rw [← hs0] at h0
+  have h1 : generate s0 (Cache.read s0) = some (s1', c1) := by
+    have : Cache.read s0 = Cache.read s := by rw [hs0]; rfl
+    rw [this, hs0, generate_hold, hg, hs1']; rfl
+  have h2 : claimBoostedYields s1' u = some (s2', boosted) := by
+    rw [hs1', claimBoostedYields_hold, hb, hs2']; rfl
+  have hact0 : s0.active = true := by rw [hs0]; exact hact
+  have hat0 : s0.attrs n = some att := by rw [hs0]; exact hat
+  obtain ⟨hamt, hep⟩ := hX.1 n att hat
+  obtain ⟨part, hpart⟩ := intoPart_ok a hamt
+  obtain ⟨p1, p2, p3, _⟩ := intoPart_spec hpart
+  have hres := reward_le_reserve hA hP hK hI hd h0 h1 hat h2
+  rw [← p2] at hres
+  have x1 : xv s1 = xv s := generate_xv hg
+  have x2 : xv s2 = xv s := (claimBoostedYields_xv hb).trans x1
+  have x2' : xv s2' = xv s := by rw [hs2']; exact x2
+  have f1 : s1.firstWeekStart = s.firstWeekStart := by obtain ⟨_, rfl, _⟩ := generate_spec hg; rfl
+  have f2 : s2.firstWeekStart = s.firstWeekStart := by
+    obtain ⟨_, _, rfl⟩ := claimBoostedYields_struct hb; exact f1
+  have v1 : av s1 = _ := (generate_av hg).1
+  have hc1 : c1.reserve = s.reserve + minted s := by rw [(generate_av hg).2]; rfl
+  have v2' : av s2' = av s1 := by
+    rw [hs2']
+    show av s2 = av s1
+    exact claimBoostedYields_av hb
+  have k2' : s2'.kind = s.kind := by
+    rw [hs2']
+    show s2.kind = s.kind
+    exact (claimBoostedYields_kind hb).trans (generate_kind hg)
+  have a2' : s2'.attrs n = some att := by
+    have : s2'.attrs = s.attrs := congrArg XV.attrs x2'
+    rw [this]; exact hat
+  obtain ⟨s3, h3⟩ := checkAndUpdate_single_ok (s := s2') (u := u) (n := n) (a := a) (by rw [a2']; rfl)
+  have x3 : xv s3 = xv s := (checkAndUpdate_xv h3).trans x2'
+  have v3 : av s3 = av s1 := (checkAndUpdate_av h3).trans v2'
+  have k3 : s3.kind = s.kind := (checkAndUpdate_kind h3).trans k2'
+  have f3 : s3.firstWeekStart = s.firstWeekStart := by
+    obtain ⟨_, rfl⟩ := checkAndUpdate_spec _ h3
+    rw [hs2']; exact f2
+  obtain ⟨merged, hmerged⟩ : ∃ m : Attr, m = ⟨c1.rps, part.epoch, part.comp, part.amt, u⟩ := ⟨_, rfl⟩
+  have hm0 : merged.amt ≠ 0 := by rw [hmerged]; show part.amt ≠ 0; rw [p1]; exact ha
+  obtain ⟨s5, n5, h5⟩ : ∃ s5 n5, createToken s3 u merged = some (s5, n5) := by
+    simp only [createToken, Option.bind_eq_bind, req, hm0, ne_eq, not_false_eq_true, if_true,
+      Option.bind_some, Option.pure_def]
+    exact ⟨_, _, rfl⟩
+  have x5e : s5.epoch = s.epoch := by
+    obtain ⟨_, _, rfl⟩ := createToken_spec h5
+    exact congrArg XV.epoch x3
+  have f5 : s5.firstWeekStart = s.firstWeekStart := by
+    obtain ⟨_, _, rfl⟩ := createToken_spec h5
+    exact f3
+  have l5 : s5.lockEpochs = s.lockEpochs := by
+    obtain ⟨_, _, rfl⟩ := createToken_spec h5
+    exact congrArg XV.lockEpochs x3
+  have v5 : av s5 = av s1 := (createToken_av h5).trans v3
+  have k5 : s5.kind = s.kind := (createToken_kind h5).trans k3
+  obtain ⟨s6, h6⟩ := setFarmSupplyWeek_ok (s := s5) c1.supply (by rw [f5, x5e]; exact hI.time)
+  have v6 : av s6 = av s1 := (setFarmSupplyWeek_av h6).trans v5
+  have k6 : s6.kind = s.kind := (setFarmSupplyWeek_kind h6).trans k5
+  have l6 : s6.lockEpochs = s.lockEpochs := by
+    obtain ⟨_, _, rfl⟩ := setFarmSupplyWeek_spec h6
+    exact l5
+  obtain ⟨s7, hs7⟩ : ∃ x : St, x = Cache.drop s6
+      ⟨c1.reserve - (baseReward s1'.dsc c1.rps a part.rps + boosted), c1.rps, c1.supply⟩ := ⟨_, rfl⟩
+  have k7 : s7.kind = s.kind := by rw [hs7]; exact k6
+  have r7 : s7.balReward = s6.balReward := by rw [hs7]; rfl
+  have l7 : s7.lockEpochs = s.lockEpochs := by rw [hs7]; exact l6
+  obtain ⟨s8, h8⟩ := payReward_ok (s := s7) u (baseReward s1'.dsc c1.rps a part.rps) boosted
+    (by
+      intro hk
+      rw [k7] at hk
+      have hb' := hA.bal hk
+      have q2 := congrArg AV.balReward v6
+      have q3 := congrArg AV.balReward v1
+      simp only [av, hk, if_true] at q2 q3
+      omega)
+    (by rw [l7]; exact hX.2.2)
+  -- assemble
+  unfold claimRewards
+  refine isSome_bind (a := u) rfl ?_
+  unfold claimCore
+  refine isSome_bind (a := (n, a)) rfl ?_
+  refine isSome_bind h0 ?_
+  refine isSome_bind (a := ()) (by simp [req, hact0]) ?_
+  refine isSome_bind (a := ()) (by simp [req]) ?_
+  refine isSome_bind (a := att) hat0 ?_
+  refine isSome_bind h1 ?_
+  refine isSome_bind hpart ?_
+  refine isSome_bind h2 ?_
+  refine isSome_bind (a := c1.reserve - (baseReward s1'.dsc c1.rps a part.rps + boosted))
+    (by simp [sub?, hres]) ?_
+  refine isSome_bind h3 ?_
+  refine isSome_bind (a := merged) (by rw [hmerged]; rfl) ?_
+  refine isSome_bind (a := (s5, n5)) h5 ?_
+  refine isSome_bind (a := s6) h6 ?_
+  refine isSome_bind (a := s8) (by rw [hs7] at h8; exact h8) ?_
+  rfl
+
+/-- every reachable state satisfies `XInv` -/
+theorem reachable_xinv (kind : Kind) (sameTok : Bool) (dsc perBlock : Nat) (produce : Bool)
+    (users : List Nat) (e0 : Nat) (ops : List Op) :
+    XInv (run (init kind sameTok dsc perBlock produce users e0) ops) :=
+  run_xinv ops (init_xinv kind sameTok dsc perBlock produce users e0)
+
 end Mx.Farm
